@@ -23,7 +23,8 @@ Abs1(x) == IF x < 0 THEN -x ELSE x
 \* ---- corpus --------------------------------------------------------------------
 LiveDocs(C) == UNION {{C.segs[s].docs[p] : p \in (1..Len(C.segs[s].docs)) \ Range(C.segs[s].del)} : s \in 1..Len(C.segs)}
 AllIds(C) == {d.id : d \in LiveDocs(C)}
-Tokens(d, f) == IF Has(d.t, f) THEN d.t[f] ELSE <<>>
+\* (keyword fields hold whole values as single terms, without positions)
+Tokens(d, f) == IF Has(d.t, f) THEN d.t[f] ELSE IF Has(d, "k") /\ Has(d.k, f) THEN d.k[f] ELSE <<>>
 Nums(d, f) == IF Has(d.n, f) THEN d.n[f] ELSE <<>>
 Dates(d, f) == IF Has(d.d, f) THEN d.d[f] ELSE <<>>
 TermsOf(d, f) == Range(Tokens(d, f))
